@@ -79,14 +79,17 @@ impl PublicKey {
 impl SighashSignature {
 //@stub SighashSignature::from_bytes_impl
 }
+//@struct PrivateKey @ src/keypair/private_key.rs clone
 pub struct ECDSA {}
 impl ECDSA {
 //@stub ECDSA::verify_hashbuf_impl
+//@stub ECDSA::sign_with_deterministic_k_impl
 }
 impl Transaction {
 //@stub Transaction::get_input
 //@stub Transaction::sighash_preimage_impl
 //@fn Transaction::_verify
+//@fn Transaction::sign_impl
 }
 //@fn verify_tx_signature
 //@fn calculate_sighash_preimage
